@@ -7,7 +7,10 @@ import (
 	"io"
 	"math"
 	"reflect"
+	"regexp"
+	"unicode/utf8"
 
+	"google.golang.org/protobuf/internal/strs"
 	"google.golang.org/protobuf/proto"
 	"google.golang.org/protobuf/reflect/protoreflect"
 	"google.golang.org/protobuf/types/descriptorpb"
@@ -298,4 +301,84 @@ func checkMessageMethods(mt protoreflect.MessageType, want *descriptorpb.FileDes
 		}
 	}
 	return nil
+}
+
+// ---------------------------------------------------------------------------------------------
+// registered finding: Default_ constants of float fields with default -0 are +0
+
+var negZeroGetter = regexp.MustCompile(`of an unpopulated field: .*float(32|64) bits 0x80+ vs 0x0+ \(want the default\)`)
+
+// hasNegZeroDefault: some float / double field at or below md declares the default -0.
+func hasNegZeroDefault(md protoreflect.MessageDescriptor, seen map[protoreflect.FullName]bool) bool {
+	if seen[md.FullName()] {
+		return false
+	}
+	seen[md.FullName()] = true
+	fs := md.Fields()
+	for i := 0; i < fs.Len(); i++ {
+		fd := fs.Get(i)
+		if (fd.Kind() == protoreflect.FloatKind || fd.Kind() == protoreflect.DoubleKind) && fd.HasDefault() {
+			if f := fd.Default().Float(); f == 0 && math.Signbit(f) {
+				return true
+			}
+		}
+		sub := fd.Message()
+		if fd.IsMap() {
+			sub = fd.MapValue().Message()
+		}
+		if sub != nil && hasNegZeroDefault(sub, seen) {
+			return true
+		}
+	}
+	return false
+}
+
+// checkGetters is goapi.CheckGetters, except that the one registered getter defect (the getter of an
+// unset float / double field whose declared default is -0 returns +0) is reported through negZero
+// instead of an error; the remaining getters of that message are then not compared.
+func checkGetters(m proto.Message, v *model.Msg, negZero *bool) (int, error) {
+	n, err := goapi.CheckGetters(m, v)
+	if err != nil && negZeroGetter.MatchString(err.Error()) && hasNegZeroDefault(m.ProtoReflect().Descriptor(), map[protoreflect.FullName]bool{}) {
+		*negZero = true
+		return n, nil
+	}
+	return n, err
+}
+
+// ---------------------------------------------------------------------------------------------
+// registered finding: repeated string extensions are not UTF-8 validated on the table-driven path
+
+// repStringExtInvalid: m (or a message below it) holds a repeated string extension field that
+// must be UTF-8 validated and has an invalid element. The table-driven codec has no validating coder
+// for repeated string *values* (internal/impl/codec_tables.go: "Extensions are never proto3"), the
+// reflection codec validates them.
+func repStringExtInvalid(m protoreflect.Message) bool {
+	found := false
+	m.Range(func(fd protoreflect.FieldDescriptor, v protoreflect.Value) bool {
+		switch {
+		case fd.IsExtension() && fd.IsList() && fd.Kind() == protoreflect.StringKind && strs.EnforceUTF8(fd):
+			for i := 0; i < v.List().Len(); i++ {
+				if !utf8.ValidString(v.List().Get(i).String()) {
+					found = true
+				}
+			}
+		case fd.IsMap():
+			if fd.MapValue().Message() != nil {
+				v.Map().Range(func(_ protoreflect.MapKey, e protoreflect.Value) bool {
+					found = found || repStringExtInvalid(e.Message())
+					return !found
+				})
+			}
+		case fd.IsList():
+			if fd.Message() != nil {
+				for i := 0; i < v.List().Len() && !found; i++ {
+					found = repStringExtInvalid(v.List().Get(i).Message())
+				}
+			}
+		case fd.Message() != nil:
+			found = repStringExtInvalid(v.Message())
+		}
+		return !found
+	})
+	return found
 }
